@@ -263,6 +263,10 @@ func (p *program) initCheckers() error {
 }
 
 func (p *program) loadProgram() error {
+	if _, err := linter.ParseGoVersion(p.goVersion); err != nil {
+		return err
+	}
+
 	sizes := types.SizesFor("gc", runtime.GOARCH)
 	if sizes == nil {
 		return fmt.Errorf("can't find sizes info for %s", runtime.GOARCH)
